@@ -637,28 +637,18 @@ Theorem C13_result_string :
 Proof. exact result_string. Qed.
 Print Assumptions C13_result_string.
 
-(* decoding a string output is lossless for every content without the byte
-   0x5c (backslash): two contents that give the same Go string are equal *)
-Theorem C13_result_string_lossless_partial :
+(* decoding a string output is LOSSLESS: every two byte contents (any bytes,
+   NUL and the backslash included; F44 repaired: the backslash is escaped as
+   \, so every '\' of the Go string starts a 6-character escape) that
+   give the same Go string are equal *)
+Theorem C13_result_string_lossless :
   forall l1 l2,
     Forall (fun x => (x < 256)%N) l1 -> Forall (fun x => (x < 256)%N) l2 ->
-    ~ In 92%N l1 -> ~ In 92%N l2 ->
     map_fst (result (info_of (TyString (length l1 * 8))) (str_value l1))
     = map_fst (result (info_of (TyString (length l2 * 8))) (str_value l2)) ->
     l1 = l2.
-Proof. exact result_string_lossless_partial. Qed.
-Print Assumptions C13_result_string_lossless_partial.
-
-(* … in general it is NOT: Result does not escape the backslash itself; the
-   string56 values  \u0000 NUL  and  NUL \u0000  (as bytes) decode to the same Go string *)
-Theorem C13_result_string_lossless_refuted :
-  exists l1 l2, length l1 = length l2 /\
-    Forall (fun x => (x < 256)%N) l1 /\ Forall (fun x => (x < 256)%N) l2 /\
-    str_value l1 <> str_value l2 /\
-    map_fst (result (info_of (TyString (length l1 * 8))) (str_value l1))
-    = map_fst (result (info_of (TyString (length l2 * 8))) (str_value l2)).
-Proof. exact render_not_injective. Qed.
-Print Assumptions C13_result_string_lossless_refuted.
+Proof. exact result_string_lossless. Qed.
+Print Assumptions C13_result_string_lossless.
 
 (* ---- (10) the text form of argument types ---- *)
 
